@@ -15,7 +15,7 @@ import (
 var pinnedNames = []string{
 	"same-path-twice", "walk-depth-4", "dir-without-R", "missing-among-good", "all-fail",
 	"gunzip-kinds", "gunzip-damaged", "exit-precedence", "glob-forms", "meta-names", "stdin-forms",
-	"malformed-pattern", "doublestar", "probe-eio",
+	"malformed-pattern", "probe-eio",
 }
 
 type prun struct {
